@@ -278,6 +278,7 @@ def scen_names(env):
         created = True
     except Concretised:
         created = True        # passed every name check, reached the registry (dict lookup needs a hash)
+        env.poisoned = None   # expected here: not an inconclusive path
     except ValueError:
         created = False
     und = prefixed(name, '_')
